@@ -1,7 +1,7 @@
 /-
 C17 — one step of `typed_interleavings_owned` (Lemmas/C17Typed.lean), core Lean only: an event that the
 thread-local typing and the blocking semantics both allow is accepted by the ownership machine, and
-the invariant `Good` holds again.  One lemma per kind of event.
+the invariant `GoodT` holds again.  One lemma per kind of event.
 -/
 import DastardV.Lemmas.C17TypedB
 
@@ -113,13 +113,13 @@ theorem give_inv {ks H H' : List Tok}
 theorem Exp_thr (S : System) (pre : Trace) (f : FSt) (t : Tid) (k : Tok) :
     Exp S pre f (.thr t) k = heldBy S pre t k := rfl
 
-theorem Good.at_thr {S : System} {pre : Trace} {o : OSt} {f : FSt} {t : Tid} {e : Ev} {H H' : List Tok}
-    (g : Good S pre o f) (cx : Ctx S pre t e H H') (k : Tok) : o.loc k = .thr t ↔ k ∈ H :=
+theorem GoodT.at_thr {S : System} {pre : Trace} {o : OSt} {f : FSt} {t : Tid} {e : Ev} {H H' : List Tok}
+    (g : GoodT S pre o f) (cx : Ctx S pre t e H H') (k : Tok) : o.loc k = .thr t ↔ k ∈ H :=
   (g.loc k _).trans (cx.held k)
 
 /-- nothing moves and the holdings of the thread stay the same -/
-theorem Good.same_loc {S : System} {pre : Trace} {o : OSt} {f f' : FSt} {t : Tid} {e : Ev} {H H' : List Tok}
-    (g : Good S pre o f) (cx : Ctx S pre t e H H')
+theorem GoodT.same_loc {S : System} {pre : Trace} {o : OSt} {f f' : FSt} {t : Tid} {e : Ev} {H H' : List Tok}
+    (g : GoodT S pre o f) (cx : Ctx S pre t e H H')
     (hH : ∀ k, k ∈ H' ↔ k ∈ H)
     (h3 : ∀ l, l ≠ .thr t → ∀ k, Exp S (pre ++ [(t, e)]) f' l k ↔ Exp S pre f l k) :
     ∀ k l, o.loc k = l ↔ Exp S (pre ++ [(t, e)]) f' l k := by
@@ -130,9 +130,9 @@ theorem Good.same_loc {S : System} {pre : Trace} {o : OSt} {f f' : FSt} {t : Tid
     rw [Exp_thr, Exp_thr, cx.held, cx.held', hH]
   · exact (h3 l hl k).symm
 
-theorem Good.release_step {S : System} {pre : Trace} {o : OSt} {f f' : FSt} {t : Tid} {e : Ev}
+theorem GoodT.release_step {S : System} {pre : Trace} {o : OSt} {f f' : FSt} {t : Tid} {e : Ev}
     {H H' ks : List Tok} {dst : Loc}
-    (g : Good S pre o f) (cx : Ctx S pre t e H H')
+    (g : GoodT S pre o f) (cx : Ctx S pre t e H H')
     (hg : (∀ k, k ∈ ks → k ∈ H) ∧ ∀ k, k ∈ H' ↔ k ∈ H ∧ k ∉ ks)
     (hdst : dst ≠ .thr t)
     (h2 : ∀ k, Exp S (pre ++ [(t, e)]) f' dst k ↔ Exp S pre f dst k ∨ k ∈ ks)
@@ -149,9 +149,9 @@ theorem Good.release_step {S : System} {pre : Trace} {o : OSt} {f f' : FSt} {t :
     · exact h2
     · exact h3
 
-theorem Good.acquire_step {S : System} {pre : Trace} {o : OSt} {f f' : FSt} {t : Tid} {e : Ev}
+theorem GoodT.acquire_step {S : System} {pre : Trace} {o : OSt} {f f' : FSt} {t : Tid} {e : Ev}
     {H H' ks : List Tok} {src : Loc}
-    (g : Good S pre o f) (cx : Ctx S pre t e H H')
+    (g : GoodT S pre o f) (cx : Ctx S pre t e H H')
     (hH' : H' = H ++ ks)
     (hsrc : src ≠ .thr t)
     (h1 : ∀ k, k ∈ ks ↔ Exp S pre f src k)
@@ -167,8 +167,8 @@ theorem Good.acquire_step {S : System} {pre : Trace} {o : OSt} {f f' : FSt} {t :
 /-! ### accesses -/
 
 theorem step_rd {S : System} {pre : Trace} {o : OSt} {f f' : FSt} {t : Tid} {x : Var} {H H' : List Tok}
-    (g : Good S pre o f) (cx : Ctx S pre t (.rd x) H H') (hF : stepF f (t, .rd x) = some f') :
-    ∃ o', stepO S.sp o (t, .rd x) = some o' ∧ Good S (pre ++ [(t, .rd x)]) o' f' := by
+    (g : GoodT S pre o f) (cx : Ctx S pre t (.rd x) H H') (hF : stepF f (t, .rd x) = some f') :
+    ∃ o', stepO S.sp o (t, .rd x) = some o' ∧ GoodT S (pre ++ [(t, .rd x)]) o' f' := by
   have hf := stepF_rd hF
   subst hf
   have hE := cx.tE
@@ -198,8 +198,8 @@ theorem step_rd {S : System} {pre : Trace} {o : OSt} {f f' : FSt} {t : Tid} {x :
   · cases hE
 
 theorem step_wr {S : System} {pre : Trace} {o : OSt} {f f' : FSt} {t : Tid} {x : Var} {H H' : List Tok}
-    (g : Good S pre o f) (cx : Ctx S pre t (.wr x) H H') (hF : stepF f (t, .wr x) = some f') :
-    ∃ o', stepO S.sp o (t, .wr x) = some o' ∧ Good S (pre ++ [(t, .wr x)]) o' f' := by
+    (g : GoodT S pre o f) (cx : Ctx S pre t (.wr x) H H') (hF : stepF f (t, .wr x) = some f') :
+    ∃ o', stepO S.sp o (t, .wr x) = some o' ∧ GoodT S (pre ++ [(t, .wr x)]) o' f' := by
   have hf := stepF_wr hF
   subst hf
   have hE := cx.tE
